@@ -40,12 +40,16 @@ class ImmutableKnotVector(tuple):
         for i in range(lenght - 1):
             if not vector[i] <= vector[i + 1]:
                 return False
+        if vector[0] == vector[-1]:
+            return False
         if degree is None:
             degree = 0
             while vector[degree] == vector[degree + 1]:
                 degree += 1
         npts = lenght - degree - 1
         if not degree < npts:
+            return False
+        if vector[0] != vector[degree] or vector[npts] != vector[-1]:
             return False
         knots = ImmutableKnotVector.__get_unique(vector[degree : npts + 1])
         for knot in knots:
